@@ -475,7 +475,11 @@ def translation_validate(job, jd, entry, params, seed, nvec):
         ca = [l for l in la if l.startswith(("ASSERT", "WITNESS"))]; cb = [l for l in lb if l.startswith(("ASSERT", "WITNESS"))]
         if early:   # a path ended by assume(false) / a throw in a job without exception modelling: compare the common prefix
             n = min(len(ca), len(cb)); ca, cb = ca[:n], cb[:n]
-        if ca != cb:
+        def _same(x, y):
+            # same kind of event; texts equal unless the translator could not recover a constant message (clang merged two call sites)
+            kx, _, tx = x.partition(": "); ky, _, ty = y.partition(": ")
+            return kx == ky and (tx == ty or tx == "harness property" or ty == "harness property" or kx == "WITNESS" and (tx == "w" or ty == "w"))
+        if len(ca) != len(cb) or not all(_same(x, y) for x, y in zip(ca, cb)):
             res["disagreements"].append(dict(values=vals[:16], real=la[-3:], generated=lb[-3:], real_rc=a["rc"], gen_rc=brc))
         if len(res["samples"]) < 2:
             res["samples"].append(dict(values=vals[:12], trace_len=len(la), last=la[-1:] ))
